@@ -422,19 +422,30 @@ def outcome_of(fn):
 
 
 def later_of(cls, obj):
-    """Outcome class of a subsequent field computation with the object."""
+    """Outcome class of a subsequent field computation with the object: alone, and in one call together with a complete
+    companion source placed before / after it (the worst outcome counts: the object must not fail internally in ANY call)."""
     c = ctx()
     m = c["m"]
-    try:
-        if cls == "Sensor":
-            B = m.getB(m.magnet.Cuboid(dimension=(1, 1, 1), polarization=(0.1, 0.2, 0.3), position=(20.0, -30.0, 40.0)), obj)
-        else:
-            B = m.getB(obj, OBS)
-    except c["lib"]:
-        return "magpylib", ""
-    except Exception as ex:  # pylint: disable=broad-except
-        return "foreign", type(ex).__name__
-    return ("ok" if np.all(np.isfinite(np.asarray(B, dtype=float))) else "nonfinite"), ""
+    comp = m.magnet.Cuboid(dimension=(1, 1, 1), polarization=(0.1, 0.2, 0.3), position=(20.0, -30.0, 40.0))
+    if cls == "Sensor":
+        calls = [lambda: m.getB(comp, obj), lambda: m.getB(comp, [m.Sensor(position=(3.0, 2.0, 1.0)), obj])]
+    elif cls == "Collection":
+        calls = [lambda: m.getB(obj, OBS)]
+    else:
+        calls = [lambda: m.getB(obj, OBS), lambda: m.getB([comp, obj], OBS), lambda: m.getB([obj, comp], OBS)]
+    rank = {"ok": 0, "magpylib": 1, "nonfinite": 2, "foreign": 3}
+    worst, worst_exc = "ok", ""
+    for call in calls:
+        try:
+            B = call()
+            oc, exc = ("ok" if np.all(np.isfinite(np.asarray(B, dtype=float))) else "nonfinite"), ""
+        except c["lib"]:
+            oc, exc = "magpylib", ""
+        except Exception as ex:  # pylint: disable=broad-except
+            oc, exc = "foreign", type(ex).__name__
+        if rank[oc] > rank[worst]:
+            worst, worst_exc = oc, exc
+    return worst, worst_exc
 
 
 NA_RB = {"kind": "na", "shape": [], "dtype": "na"}
